@@ -23,7 +23,7 @@ ASSUMPTIONS = [
 
 def coverage_class(tr, ev):
     if tr.get("kind") == "edge":
-        return (tr.get("root"), ev["op"], ev.get("out"), ev.get("cls", "-"), ev.get("near", "-"), ev.get("full", "-"),
+        return (tr.get("root"), ev["op"], ev.get("out"), ev.get("cls", "-"), ev.get("near", "-"), ev.get("vec", "-"), ev.get("full", "-"),
                 ev.get("overlap", "-"), min(tr.get("n", 0), 12))
     x = ev.get("x")
     if not isinstance(x, dict):
